@@ -3,6 +3,7 @@ From Coq Require Import List NArith ZArith Bool.
 From NV Require Import Lib.Res Gen.Fat Fat.Spec.
 From NV Require Import FatTable.Model FatTable.ProofsBase FatTable.ProofsSet32 FatTable.Proofs.
 From NV Require Import FatAlloc.Model FatAlloc.ProofsBase FatAlloc.ProofsGrow FatAlloc.ProofsOps FatAlloc.ProofsWrite FatAlloc.ProofsFrame FatAlloc.Proofs.
+From NV Require Import FatRead.Model FatData.Model FatData.Spec FatData.ProofsBase FatData.Proofs.
 Import ListNotations.
 Open Scope N_scope.
 
@@ -26,33 +27,39 @@ Print Assumptions C10_free_complete.
 
 (* growing truncate fails exactly when too few clusters are free, and then with ENOSPC (all or nothing: the state is returned unchanged) *)
 Theorem C10_truncate_enospc :
-  forall bits cs limit : N, 0 < cs -> limit <= max_valid (PB bits) + 1 -> forall (newsize : N) (st : fstate) (e : exn), truncate (PB bits) cs limit newsize st = Err e <-> e = OSError_ENOSPC /\ newsize <> size st /\ len (map st) < trunc_clusters cs newsize /\ (length (free_scan (PB bits) (tbl st) limit (hint_of (sfat st))) < N.to_nat (trunc_clusters cs newsize - len (map st)))%nat.
+  forall bits cs limit : N, 0 < cs -> limit <= max_valid (PB bits) + 1 -> forall (newsize : N) (st : FatAlloc.Model.fstate) (e : exn), truncate (PB bits) cs limit newsize st = Err e <-> e = OSError_ENOSPC /\ newsize <> size st /\ len (map st) < trunc_clusters cs newsize /\ (length (free_scan (PB bits) (tbl st) limit (hint_of (sfat st))) < N.to_nat (trunc_clusters cs newsize - len (map st)))%nat.
 Proof. exact FatAlloc.Proofs.FA_truncate_enospc. Qed.
 Print Assumptions C10_truncate_enospc.
 
 Theorem C10_truncate_enospc_genuine :
-  forall bits cs limit : N, 0 < cs -> limit <= max_valid (PB bits) + 1 -> forall (newsize : N) (st : fstate) (e : exn) (l : list N), truncate (PB bits) cs limit newsize st = Err e -> NoDup l -> (forall c : N, In c l -> is_free (PB bits) limit (tbl st) c /\ c <= max_valid (PB bits)) -> (length l < N.to_nat (trunc_clusters cs newsize - len (map st)))%nat.
+  forall bits cs limit : N, 0 < cs -> limit <= max_valid (PB bits) + 1 -> forall (newsize : N) (st : FatAlloc.Model.fstate) (e : exn) (l : list N), truncate (PB bits) cs limit newsize st = Err e -> NoDup l -> (forall c : N, In c l -> is_free (PB bits) limit (tbl st) c /\ c <= max_valid (PB bits)) -> (length l < N.to_nat (trunc_clusters cs newsize - len (map st)))%nat.
 Proof. exact FatAlloc.Proofs.FA_truncate_enospc_genuine. Qed.
 Print Assumptions C10_truncate_enospc_genuine.
 
 Theorem C10_alloc_one_enospc :
-  forall (bits limit : N) (st : fstate) (e : exn), alloc_one (PB bits) limit st = Err e <-> e = OSError_ENOSPC /\ free_scan (PB bits) (tbl st) limit (hint_of (sfat st)) = [].
+  forall (bits limit : N) (st : FatAlloc.Model.fstate) (e : exn), alloc_one (PB bits) limit st = Err e <-> e = OSError_ENOSPC /\ free_scan (PB bits) (tbl st) limit (hint_of (sfat st)) = [].
 Proof. exact FatAlloc.Proofs.FA_alloc_one_enospc. Qed.
 Print Assumptions C10_alloc_one_enospc.
 
 (* a write that runs out of space leaves the file well-formed, holding a prefix, size and chain in agreement *)
 Theorem C10_write_enospc_wf :
-  forall bits cs limit : N, 0 < cs -> limit <= max_valid (PB bits) + 1 -> forall (nbytes : N) (st : fstate), st_wf (PB bits) cs limit st -> let r := write_clusters (PB bits) cs limit nbytes st in st_wf (PB bits) cs limit (fst r) /\ extends (PB bits) limit (tbl st) (map st) (tbl (fst r)) (map (fst r)) /\ (snd r = true -> pos (fst r) = pos st + nbytes /\ size (fst r) = N.max (size st) (pos st + nbytes) /\ (0 < nbytes -> cdiv (pos st + nbytes) cs <= len (map (fst r)))) /\ (snd r = false -> fst r = st \/ free_scan (PB bits) (tbl (fst r)) limit (hint_of (sfat (fst r))) = [] /\ pos (fst r) = len (map (fst r)) * cs /\ size (fst r) = N.max (size st) (pos (fst r))).
+  forall bits cs limit : N, 0 < cs -> limit <= max_valid (PB bits) + 1 -> forall (nbytes : N) (st : FatAlloc.Model.fstate), st_wf (PB bits) cs limit st -> let r := write_clusters (PB bits) cs limit nbytes st in st_wf (PB bits) cs limit (fst r) /\ extends (PB bits) limit (tbl st) (map st) (tbl (fst r)) (map (fst r)) /\ (snd r = true -> pos (fst r) = pos st + nbytes /\ size (fst r) = N.max (size st) (pos st + nbytes) /\ (0 < nbytes -> cdiv (pos st + nbytes) cs <= len (map (fst r)))) /\ (snd r = false -> fst r = st \/ free_scan (PB bits) (tbl (fst r)) limit (hint_of (sfat (fst r))) = [] /\ pos (fst r) = len (map (fst r)) * cs /\ size (fst r) = N.max (size st) (pos (fst r))).
 Proof. exact FatAlloc.Proofs.FA_write_wf. Qed.
 Print Assumptions C10_write_enospc_wf.
 
 Theorem C10_truncate_wf :
-  forall bits cs limit : N, 0 < cs -> limit <= max_valid (PB bits) + 1 -> forall (newsize : N) (st st' : fstate), st_wf (PB bits) cs limit st -> truncate (PB bits) cs limit newsize st = Ok st' -> st_wf (PB bits) cs limit st' /\ size st' = newsize /\ pos st' = pos st /\ length (tbl st') = length (tbl st) /\ ((exists new : list N, new <> [] /\ map st' = map st ++ new /\ new = firstn (length new) (free_scan (PB bits) (tbl st) limit (hint_of (sfat st))) /\ extends (PB bits) limit (tbl st) (map st) (tbl st') (map st')) \/ (exists removed : list N, removed <> [] /\ map st = map st' ++ removed /\ map st' <> [] /\ (forall c : N, In c removed -> get (tbl st') c = 0) /\ (forall c : N, ~ In c (map st) -> get (tbl st') c = get (tbl st) c)) \/ map st' = map st /\ sfat st' = sfat st).
+  forall bits cs limit : N, 0 < cs -> limit <= max_valid (PB bits) + 1 -> forall (newsize : N) (st st' : FatAlloc.Model.fstate), st_wf (PB bits) cs limit st -> truncate (PB bits) cs limit newsize st = Ok st' -> st_wf (PB bits) cs limit st' /\ size st' = newsize /\ pos st' = pos st /\ length (tbl st') = length (tbl st) /\ ((exists new : list N, new <> [] /\ map st' = map st ++ new /\ new = firstn (length new) (free_scan (PB bits) (tbl st) limit (hint_of (sfat st))) /\ extends (PB bits) limit (tbl st) (map st) (tbl st') (map st')) \/ (exists removed : list N, removed <> [] /\ map st = map st' ++ removed /\ map st' <> [] /\ (forall c : N, In c removed -> get (tbl st') c = 0) /\ (forall c : N, ~ In c (map st) -> get (tbl st') c = get (tbl st) c)) \/ map st' = map st /\ sfat st' = sfat st).
 Proof. exact FatAlloc.Proofs.FA_truncate_wf. Qed.
 Print Assumptions C10_truncate_wf.
 
+(* at byte level: a step that fails does so with ENOSPC, keeps the invariant; a failed truncate changes nothing, a failed write keeps a strict prefix of the buffer *)
+Theorem C10_data_step_enospc :
+  forall bits cs : N, 0 < cs -> forall (s : dstate) (o : op) (s' : dstate) (e : exn), ProofsTrunc.Inv (PB bits) cs s -> step (PB bits) cs true s o = (s', Err e) -> ProofsTrunc.Inv (PB bits) cs s' /\ match o with | OSeek _ _ => spec_step cs (ProofsTrunc.abs s) o = (ProofsTrunc.abs s', Err e) /\ ProofsTrunc.abs s' = ProofsTrunc.abs s | OWrite b => e = OSError_ENOSPC /\ (ProofsTrunc.abs s' = ProofsTrunc.abs s /\ alen (ProofsTrunc.abs s) < apos (ProofsTrunc.abs s) \/ (exists k : nat, (k < length b)%nat /\ ProofsTrunc.abs s' = a_write (ProofsTrunc.abs s) (firstn k b))) | OTruncate _ => e = OSError_ENOSPC /\ ProofsTrunc.abs s' = ProofsTrunc.abs s /\ fs s' = fs s | _ => False end.
+Proof. exact FatData.Proofs.FD_step_enospc. Qed.
+Print Assumptions C10_data_step_enospc.
+
 Theorem C10_history_wf :
-  forall bits cs limit : N, 0 < cs -> limit <= max_valid (PB bits) + 1 -> forall (ops : list (nat * op)) (v : volume), vol_wf (PB bits) cs limit v -> vol_wf (PB bits) cs limit (fold_left (vstep (PB bits) cs limit) ops v) /\ (forall c : N, foreign v c -> foreign (fold_left (vstep (PB bits) cs limit) ops v) c /\ get (ftbl (vfat (fold_left (vstep (PB bits) cs limit) ops v))) c = get (ftbl (vfat v)) c).
+  forall bits cs limit : N, 0 < cs -> limit <= max_valid (PB bits) + 1 -> forall (ops : list (nat * ProofsFrame.op)) (v : volume), vol_wf (PB bits) cs limit v -> vol_wf (PB bits) cs limit (fold_left (vstep (PB bits) cs limit) ops v) /\ (forall c : N, foreign v c -> foreign (fold_left (vstep (PB bits) cs limit) ops v) c /\ get (ftbl (vfat (fold_left (vstep (PB bits) cs limit) ops v))) c = get (ftbl (vfat v)) c).
 Proof. exact FatAlloc.Proofs.FA_history. Qed.
 Print Assumptions C10_history_wf.
 
